@@ -340,8 +340,10 @@ func (db *DB) setPin(batch driver.Batching, item, rootItem shed.Item) (gcSizeCha
 						return 0, err
 					}
 				}
+				// gcSize follows the gc index: it only shrinks when the
+				// file's cached-chunk count did
+				gcSizeChange--
 			}
-			gcSizeChange--
 		}
 	}
 
